@@ -69,6 +69,10 @@ type Case struct {
 	// Empty (kind xmlempty): an encodable value whose XML encoding is empty:
 	// "slice" = []XAddr{}, "nilslice" = []XAddr(nil), "nilptr" = (*XPerson)(nil).
 	Empty string `json:"empty_value,omitempty"`
+	// Outer (renderer at group / route): the application also has a Renderer of
+	// its own, installed with Use and configured differently (another charset
+	// and other indentations); the handlers get the nearest one's Render.
+	Outer bool `json:"another_renderer_in_front,omitempty"`
 }
 
 func (c Case) value() interface{} {
@@ -164,6 +168,9 @@ func checkCase(c Case) (out evid.Outcome) {
 		f.Use(func(ctx flamego.Context) {
 			ctx.ResponseWriter().Header().Set("Content-Type", "application/octet-stream")
 		})
+	}
+	if c.Outer && c.At != "use" {
+		f.Use(flamego.Renderer(flamego.RenderOptions{Charset: "KOI8-R", JSONIndent: "\t\t\t", XMLIndent: "        "}))
 	}
 	switch c.At {
 	case "use":
@@ -497,6 +504,7 @@ func genCase(t *rapid.T) Case {
 		c.Status = rapid.IntRange(100, 999).Draw(t, "rawstatus")
 	}
 	c.Which = rapid.IntRange(0, c.After-1).Draw(t, "which")
+	c.Outer = c.At != "use" && rapid.IntRange(0, 3).Draw(t, "outer") == 0
 	if rapid.IntRange(0, 3).Draw(t, "opts") > 0 {
 		c.Opts = &flamego.RenderOptions{
 			Charset:    []string{"", "", "ISO-8859-1", "gbk"}[rapid.IntRange(0, 3).Draw(t, "charset")],
